@@ -44,8 +44,9 @@ def flag_kwargs(op, case_sensitive, merge):
     return kw
 
 
-def gen_valid_records(rng, curie_pool, uri_pool, n, with_pattern=True, max_syn=2):
-    """A strict-valid record set over the pools (tokens used at most once)."""
+def gen_valid_records(rng, curie_pool, uri_pool, n, with_pattern=True, max_syn=2, p_repeat=0.0):
+    """A strict-valid record set over the pools (tokens used at most once; with ``p_repeat`` a record
+    lists one of its own synonyms twice, which a Record allows)."""
     cp = list(curie_pool)
     up = list(uri_pool)
     rng.shuffle(cp)
@@ -62,6 +63,10 @@ def gen_valid_records(rng, curie_pool, uri_pool, n, with_pattern=True, max_syn=2
         for _ in range(rng.randint(0, max_syn)):
             if up and rng.random() < 0.6:
                 d["uri_prefix_synonyms"].append(up.pop())
+        if p_repeat and rng.random() < p_repeat:
+            side = "prefix_synonyms" if rng.random() < 0.5 else "uri_prefix_synonyms"
+            if d[side]:
+                d[side].append(d[side][0])
         out.append(d)
     return out
 
@@ -80,7 +85,7 @@ class C05Machine(Machine):
         "merge_adds_uri_synonym_only", "merge_keeps_pattern", "merge_into_start_built", "same_object_twice",
         "empty_prefix_token", "empty_uri_prefix_token", "start_from_chain", "start_from_subconverter",
         "retry_rejected_now_accepted", "retry_rejected_again_rejected", "other_side_of_rejected_appended", "other_side_of_rejected_merged_elsewhere",
-        "start_from_reconciliation", "submission_with_own_case_variants", "large_converter", "merge_into_record_past_position_256", "flag_left_to_its_default", "big_submission",
+        "start_from_reconciliation", "submission_with_own_case_variants", "large_converter", "merge_into_record_past_position_256", "flag_left_to_its_default", "big_submission", "synonym_repeated_in_own_record", "start_converter_not_observed", "call_not_observed", "catch_up_observation",
     ]
 
     @classmethod
@@ -100,24 +105,29 @@ class C05Machine(Machine):
             "start_kind": rng.choice(START_KINDS),
             "start_size": rng.randint(0, 5),
         }
+        # how often the converter is looked at: usually after every call, sometimes only every k-th call
+        # or only at the end of the history (lazily built structures must also be right when COLD)
+        cfg["observe_every"] = rng.choice([1, 1, 1, 1, 1, 2, 3, 99])
         large = rng.random() < (0.02 if tier == "quick" else 0.06)
         cfg["large"] = large
         # very rarely a HUGE converter: past 256 records (CPython's small-int cache, one-byte counters, ...)
         huge = rng.random() < (0.004 if tier == "quick" else 0.012)
         cfg["huge"] = huge
+        cfg["n_synth"] = 0
         if large:
-            cfg["curie_pool"] = cfg["curie_pool"] + tokens.synthetic_curie_prefixes(60)
-            cfg["uri_pool"] = cfg["uri_pool"] + tokens.synthetic_uri_prefixes(60)
-            cfg["start_size"] = rng.choice([14, 15, 16, 17, 20, 30, 31, 32, 33, 40])   # on / next to usual thresholds
+            cfg["start_size"] = rng.choice([14, 15, 16, 17, 20, 30, 31, 32, 33, 40, 63, 64, 65, 100, 128, 129])   # on / next to usual thresholds
             cfg["max_ops"] = rng.randint(8, 24)
+            cfg["n_synth"] = 60 if cfg["start_size"] <= 40 else 420
         if huge:
             cfg["large"] = True
-            cfg["curie_pool"] = cfg["curie_pool"][:len(cfg["curie_pool"]) - (60 if large else 0)] + tokens.synthetic_curie_prefixes(60 + 840)
-            cfg["uri_pool"] = cfg["uri_pool"][:len(cfg["uri_pool"]) - (60 if large else 0)] + tokens.synthetic_uri_prefixes(60 + 840)
-            cfg["start_size"] = rng.choice([257, 258, 300])
+            cfg["start_size"] = rng.choice([200, 255, 256, 257, 258, 300])
             cfg["start_kind"] = rng.choice(["ctor", "epm", "prefix_map"])
             cfg["max_ops"] = rng.randint(8, 14)
             cfg["p_collide"] = 0.9
+            cfg["n_synth"] = 900
+        if cfg["n_synth"]:
+            cfg["curie_pool"] = cfg["curie_pool"] + tokens.synthetic_curie_prefixes(cfg["n_synth"])
+            cfg["uri_pool"] = cfg["uri_pool"] + tokens.synthetic_uri_prefixes(cfg["n_synth"])
         return cfg
 
     def __init__(self, config, known=frozenset()):
@@ -128,17 +138,12 @@ class C05Machine(Machine):
         self.conv = None
         self.model = None
         cp, up = config["curie_pool"], config["uri_pool"]
-        if config.get("huge"):
-            nb_c = len(cp) - 900
-            nb_u = len(up) - 900
-            cp = cp[:nb_c] + cp[nb_c::75]
-            up = up[:nb_u] + up[nb_u::75]
-        elif config.get("large"):
-            # large configurations: probe every base token and every 4th synthetic one
-            nb_c = len(cp) - 60
-            nb_u = len(up) - 60
-            cp = cp[:nb_c] + cp[nb_c::4]
-            up = up[:nb_u] + up[nb_u::4]
+        n_synth = int(config.get("n_synth", 0))
+        if n_synth:
+            # large / huge configurations: probe every base token and about 15 of the synthetic ones
+            step = max(1, n_synth // 15)
+            cp = cp[:len(cp) - n_synth] + cp[len(cp) - n_synth::step]
+            up = up[:len(up) - n_synth] + up[len(up) - n_synth::step]
         self.strings, self.pairs = observe.probe_sets(cp, up, config["id_pool"], [config["delimiter"]])
         self.snap = None
         self.last_record_obj = None
@@ -148,6 +153,9 @@ class C05Machine(Machine):
         self.rejected = []        # earlier rejected submissions (op dicts), for the retry relations
         self.delimiter0 = config["delimiter"]
         self.focus = None
+        self.observe_every = int(config.get("observe_every", 1))
+        self.dirty = False        # calls were made since the converter was last looked at
+        self.n_calls = 0
         self.started = False
 
     # ----------------------------------------------------------- generation
@@ -167,6 +175,7 @@ class C05Machine(Machine):
             }
         rec = self._gen_record(rng, rel, kind)
         force_merge = rec.pop("_force_merge", False)
+        rec.pop("_repeat", None)
         op = {
             "op": kind,
             "relation": rel,
@@ -190,8 +199,9 @@ class C05Machine(Machine):
         cfg = self.config
         kind = cfg["start_kind"]
         n = cfg["start_size"]
-        op = {"op": "start", "kind": kind, "delimiter": cfg["delimiter"]}
-        recs = gen_valid_records(rng, cfg["curie_pool"], cfg["uri_pool"], n)
+        op = {"op": "start", "kind": kind, "delimiter": cfg["delimiter"], "container": rng.choice(tokens.CONTAINERS)}
+        recs = gen_valid_records(rng, cfg["curie_pool"], cfg["uri_pool"], n,
+                                 p_repeat=0.08 if kind in ("ctor", "epm") else 0.0)
         if kind == "empty":
             op["records"] = []
         elif kind in ("ctor", "epm"):
@@ -352,6 +362,13 @@ class C05Machine(Machine):
         if rel != "invalid":
             rec["prefix_synonyms"] = [s for s in dict.fromkeys(rec["prefix_synonyms"]) if s != rec["prefix"]]
             rec["uri_prefix_synonyms"] = [s for s in dict.fromkeys(rec["uri_prefix_synonyms"]) if s != rec["uri_prefix"]]
+            if rng.random() < 0.06:
+                # a synonym listed twice in its own record (a valid Record: only the canonical value may not
+                # be among the synonyms) - lists concatenated from several sources look like this
+                side = "prefix_synonyms" if rng.random() < 0.5 else "uri_prefix_synonyms"
+                if rec[side]:
+                    rec[side].append(rng.choice(rec[side]))
+                    rec["_repeat"] = True
         return rec
 
     @staticmethod
@@ -407,7 +424,8 @@ class C05Machine(Machine):
             if kind == "empty":
                 conv = Converter([], delimiter=delim)
             elif kind == "ctor":
-                conv = Converter([Record(**r) for r in recs], delimiter=delim)
+                conv = Converter(tokens.as_container(op.get("container", "list"), [Record(**r) for r in recs]),
+                                 delimiter=delim)
             elif kind == "epm":
                 conv = Converter.from_extended_prefix_map([dict(r) for r in recs], delimiter=delim)
             elif kind == "prefix_map":
@@ -452,9 +470,15 @@ class C05Machine(Machine):
         dumps = [observe.record_dump(r) for r in conv.records]
         self.model = RecordSetModel.from_dumps(dumps)
         self.started = True
+        self.note_state(self.model.keys(), "start", kind)
+        if self.observe_every > 1:
+            # the start converter is not queried at all before the first add
+            self.snap = None
+            self.dirty = True
+            self.probe("start_converter_not_observed")
+            return {"start": kind, "n": len(dumps), "snap": None}
         self.snap = self._snapshot()
         self._check_consistent(self.snap, "start:" + kind, submitted=None, target=None)
-        self.note_state(self.model.keys(), "start", kind)
         return {"start": kind, "n": len(dumps), "snap": observe.digest(self.snap)}
 
     def apply(self, op):
@@ -467,8 +491,13 @@ class C05Machine(Machine):
         rd = op["record"]
         site = "Converter." + op["op"]
         cs, merge = op["case_sensitive"], op["merge"]
-        pre = self.snap
         mrec = MRecord.from_dump(rd)
+        self.n_calls += 1
+        if self.observe_every > 1 and self.n_calls % self.observe_every != 0:
+            return self._apply_unobserved(op, rd, mrec, site, cs, merge)
+        if self.dirty:
+            self._catch_up(site)
+        pre = self.snap
         # query - add - query on the very strings the submission is about: the last lookups before the
         # call and the first lookups after it are the same (what a last-lookup memo would get wrong)
         d = self.delimiter0
@@ -571,6 +600,9 @@ class C05Machine(Machine):
                     self.probe("merge_into_record_past_position_256")
             if len(mrec.prefix_synonyms) >= 5:
                 self.probe("big_submission")
+            if len(rd["prefix_synonyms"]) != len(set(rd["prefix_synonyms"])) or \
+                    len(rd["uri_prefix_synonyms"]) != len(set(rd["uri_prefix_synonyms"])):
+                self.probe("synonym_repeated_in_own_record")
             if "" in mrec.all_prefixes():
                 self.probe("empty_prefix_token")
             if "" in mrec.all_uri_prefixes():
@@ -579,6 +611,65 @@ class C05Machine(Machine):
         self.snap = post
         self.note_state(self.model.keys(), op["op"], outcome)
         return {"result": result, "model": outcome, "snap": observe.digest(post)}
+
+    def _call(self, op, rd, cs, merge):
+        """The real call (shared by the observed and the unobserved path). Returns the exception or None."""
+        c = self.curies
+        conv = self.conv
+        try:
+            if op["op"] == "add_record":
+                robj = c.Record(**rd)
+                self.last_record_obj = robj
+                self.last_record_dump = copy.deepcopy(rd)
+                conv.add_record(robj, **flag_kwargs(op, cs, merge))
+            else:
+                coll = COLLECTION_TYPES[op.get("coll", "list")]
+                kw = {}
+                if rd["prefix_synonyms"] or op.get("coll", "list") != "omit":
+                    kw["prefix_synonyms"] = coll(rd["prefix_synonyms"])
+                if rd["uri_prefix_synonyms"] or op.get("coll", "list") != "omit":
+                    kw["uri_prefix_synonyms"] = coll(rd["uri_prefix_synonyms"])
+                conv.add_prefix(rd["prefix"], rd["uri_prefix"], **flag_kwargs(op, cs, merge), **kw)
+        except Exception as e:  # noqa: BLE001
+            return e
+        return None
+
+    def _apply_unobserved(self, op, rd, mrec, site, cs, merge):
+        """A call after which the converter is NOT looked at: only accept / reject is judged now; what
+        the call did to the converter is judged at the next observation (catch-up)."""
+        err = self._call(op, rd, cs, merge)
+        outcome, _ = self.model.add(mrec, cs, merge)
+        self.event(op["op"])
+        self.event("model_" + outcome)
+        self.probe("call_not_observed")
+        self.dirty = True
+        self.snap = None
+        if err is not None and not isinstance(err, ValueError):
+            raise Violation(PROP, "wrong_exception", site, {"exception": type(err).__name__, "op": op})
+        if (err is not None) != outcome.startswith("reject"):
+            raise Violation(PROP, "accept_reject_mismatch", site,
+                            {"real": "rejected:" + type(err).__name__ if err else "accepted", "model": outcome, "op": op})
+        if err is not None:
+            self.n_reject += 1
+            self.fault("rejected_call")
+            if outcome != "reject_invalid":
+                self.rejected.append({"op": op["op"], "record": copy.deepcopy(op["record"]),
+                                      "case_sensitive": cs, "merge": merge})
+        elif outcome == "merge_new":
+            self.n_merge_new += 1
+        self.note_state(self.model.keys(), op["op"], outcome)
+        return {"result": "rejected" if err else "accepted", "model": outcome, "observed": False}
+
+    def _catch_up(self, site):
+        """First look at the converter after one or more unobserved calls: the full consistency check."""
+        self.snap = self._snapshot()
+        self.dirty = False
+        self.probe("catch_up_observation")
+        self._check_consistent(self.snap, site + "(first look after unobserved calls)", submitted=None, target=None)
+
+    def finish(self):
+        if self.dirty and self.conv is not None and self.model is not None:
+            self._catch_up("end_of_history")
 
     def recover(self, op):
         # after a known finding: re-anchor model and snapshot at the real state
